@@ -78,4 +78,15 @@ pub mod aead_2022 {
         let enc_key = identity_keys.remove(identity_keys.len() - 1);
         Ok((enc_key, identity_keys))
     }
+
+    /// Keys of a configured password (`iPSK:...:uPSK`): every key must be exactly N bytes long; a shorter one is an
+    /// error, not a key padded with zeros.
+    pub fn configured_keys<const N: usize>(password: &str) -> Result<([u8; N], Vec<[u8; N]>), base64ct::Error> {
+        for s in password.split(':') {
+            if Base64::decode(s, &mut [0; N])?.len() != N {
+                return Err(base64ct::Error::InvalidLength);
+            }
+        }
+        password_to_keys(password)
+    }
 }
